@@ -340,6 +340,12 @@ def run(chk):
                     n_add += 1
                     a = c.args[0] if c.args else None
                     ok = isinstance(a, ast.Call) and call_name(a) == "normalize_server_spec"
+                    if not ok and isinstance(a, ast.Name):
+                        # a loop variable over a list that was built with normalize_server_spec(...)
+                        for anc in _ancestors(c):
+                            if isinstance(anc, ast.For) and isinstance(anc.target, ast.Name) and anc.target.id == a.id and isinstance(anc.iter, ast.Name):
+                                defs = [n for n in walk_no_nested(f.node) if isinstance(n, ast.Assign) and any(isinstance(t, ast.Name) and t.id == anc.iter.id for t in n.targets)]
+                                ok = bool(defs) and all(isinstance(d.value, (ast.ListComp, ast.GeneratorExp)) and isinstance(d.value.elt, ast.Call) and call_name(d.value.elt) == "normalize_server_spec" for d in defs)
                     r5.expect(ok, "%s adds normalize_server_spec(server)" % f.qualname, "%s:unnormalised-server" % f.qualname, "%s adds `%s` without normalize_server_spec: equivalent spellings of an address give different node names and therefore different placement" % (f.qualname, node_src(a) if a is not None else None), fn=f, node=c)
     r5.floor("add_server sites in constructors", n_add, 2)
     hc = prog.cls("HashClient")
